@@ -248,8 +248,17 @@ func (x *Ctx) Report(f *Finding, mk func() Case, rerun func() *Finding) {
 	}
 }
 
+// GoTestFor, when set, renders a plain Go test (no explorer, no harness
+// packages) that reproduces the case; it is stored in the replay file.
+var GoTestFor func(c Case, f *Finding) string
+
 func (x *Ctx) writeReplay(c Case, f *Finding) string {
 	body := map[string]any{"case": c, "class": f.Class, "detail": f.Detail, "sig": f.Sig}
+	if GoTestFor != nil {
+		if t := GoTestFor(c, f); t != "" {
+			body["plain_go_test"] = t
+		}
+	}
 	b, _ := json.MarshalIndent(body, "", " ")
 	sum := sha256.Sum256(b)
 	dir := x.Replays
